@@ -2,10 +2,10 @@
 # tools/seedcheck.sh <ID> <PROP...>   confirm a seeded change delivered in /tmp/wt/<ID>/SEED and run my checks against it
 # (scratch copy of /repo/xenium with the patch applied; /repo itself is not touched)
 ID=$1; shift
-WT=/tmp/wt/$ID
+WT=${SEED_WT:-/tmp/wt}/$ID
 set -u
-echo "== demo with the change"; (cd $WT && timeout 900 bash SEED/run_demo.sh > /tmp/wt/$ID.demo_with.log 2>&1; echo "exit=$?")
-echo "== demo without the change"; (cd $WT && git stash -q -- xenium && timeout 900 bash SEED/run_demo.sh > /tmp/wt/$ID.demo_without.log 2>&1; echo "exit=$?"; git stash pop -q)
+echo "== demo with the change"; (cd $WT && timeout 900 bash SEED/run_demo.sh > ${SEED_WT:-/tmp/wt}/$ID.demo_with.log 2>&1; echo "exit=$?")
+echo "== demo without the change"; (cd $WT && git stash -q -- xenium && timeout 900 bash SEED/run_demo.sh > ${SEED_WT:-/tmp/wt}/$ID.demo_without.log 2>&1; echo "exit=$?"; git stash pop -q)
 echo "== existing suite with the change"; (cd $WT && cmake --build _build --target gtest 2>&1 | tail -1; timeout 1800 ctest --test-dir _build -j8 --timeout 900 2>&1 | tail -3)
 rm -rf /tmp/seedx-$ID && mkdir -p /tmp/seedx-$ID && cp -r /repo/xenium /tmp/seedx-$ID/ && (cd /tmp/seedx-$ID && git init -q . 2>/dev/null; patch -p1 --binary < $WT/SEED/patch.diff | tail -2)
 for P in "$@"; do
